@@ -3,43 +3,31 @@ package main
 import (
 	"encoding/json"
 	"fmt"
+	"os"
+	"runtime/debug"
 
-	"github.com/go-openapi/spec"
 	"github.com/go-swagger/go-swagger/cmd/swagger/commands/diff"
+	"verif/harness/internal/dimpl"
 )
 
-func load(s string) *spec.Swagger {
-	var sw spec.Swagger
-	if err := json.Unmarshal([]byte(s), &sw); err != nil {
-		panic(err)
+func main() {
+	b, _ := os.ReadFile(os.Args[1])
+	var o struct {
+		Input struct {
+			A, B  json.RawMessage
+			Edits []string
+		}
 	}
-	return &sw
-}
-
-func try(name, a, b string) {
+	_ = json.Unmarshal(b, &o)
+	fmt.Println("edits:", o.Input.Edits)
 	defer func() {
 		if r := recover(); r != nil {
-			fmt.Printf("%s: PANIC %v\n", name, r)
+			fmt.Println("PANIC", r)
+			fmt.Println(string(debug.Stack()))
 		}
 	}()
-	ds, err := diff.Compare(load(a), load(b))
-	fmt.Printf("%s: %d diffs err=%v\n", name, len(ds), err)
-	for _, d := range ds {
-		fmt.Printf("   %s [%v]\n", d.String(), d.Compatibility)
-	}
-}
-
-func main() {
-	a := `{"swagger":"2.0","info":{"title":"t","version":"1"},"paths":{"/a":{"get":{"responses":{"200":{"description":"ok"}}}}}}`
-	b := `{"swagger":"2.0","info":{"title":"t","version":"1"},"paths":{"/a":{"get":{"responses":{"200":{"description":"ok"},"204":{"description":"nc"}}}}}}`
-	try("added-response-noschema", a, b)
-	try("deleted-response-noschema", b, a)
-	c := `{"swagger":"2.0","info":{"title":"t","version":"1"},"paths":{"/a":{"get":{"responses":{"200":{"description":"ok","schema":{"properties":{"x":{"type":"string"}}}}}}}}}`
-	try("untyped-inline-identity", c, c)
-	d := `{"swagger":"2.0","info":{"title":"t","version":"1"},"paths":{"/a":{"get":{"parameters":[{"name":"q","in":"query","type":"array","items":{"type":"string"},"default":["a"]}],"responses":{"200":{"description":"ok"}}}}}}`
-	try("array-default-identity", d, d)
-	e1 := `{"swagger":"2.0","info":{"title":"t","version":"1"},"paths":{"/a":{"get":{"responses":{"200":{"description":"ok","schema":{"type":"object","properties":{"x":{"$ref":"#/definitions/X"}}}}}}}},"definitions":{"X":{"type":"object"}}}`
-	e2 := `{"swagger":"2.0","info":{"title":"t","version":"1"},"paths":{"/a":{"get":{"responses":{"200":{"description":"ok","schema":{"type":"object","properties":{"x":{"properties":{"y":{"type":"string"}}}}}}}}}},"definitions":{"X":{"type":"object"}}}`
-	try("ref-to-untyped", e1, e2)
-	try("untyped-to-ref", e2, e1)
+	sa, _ := dimpl.Load(o.Input.A)
+	sb, _ := dimpl.Load(o.Input.B)
+	ds, err := diff.Compare(sa, sb)
+	fmt.Println(len(ds), err)
 }
